@@ -373,7 +373,7 @@ def run_gen(item):
             if nontrivial:
                 res["distinct"] += 1
                 if res["sample"] is None or (res["evals"] % 7 == 3 and len(b) < 200):
-                    res["sample"] = {"type": item["type"], "consts": item.get("consts", "none"), "value": vals, "bytes": b.decode("utf-8", "replace").strip()}
+                    res["sample"] = {"type": item["type"], "consts": item.get("consts", "none"), "mode": item.get("mode", "req"), "value": vals, "bytes": b.decode("utf-8", "replace").strip()}
         if fails:
             res["nviol"] += len(fails)
             shift = None
